@@ -65,7 +65,9 @@ theorem inv_trans {s s' : State} {c : Nat} {ocn' : Option Conn} (h : Inv s)
     (hhold : ∀ cn', ocn' = some cn' → ∀ k y, cn'.holds k y →
       y ∉ s'.pool k ∧ (oldH s c k y ∨ y ∈ s.pool k ∨ s.next ≤ y))
     (hidle : ∀ cn', ocn' = some cn' → cn'.phase = .idle → cn'.stream = none)
-    (hhj : ∀ cn', ocn' = some cn' → ∀ x, cn'.hj = some x → cn'.phase = .hijacking) : Inv s' := by
+    (hkeep : s'.keepHj = s.keepHj)
+    (hhj : ∀ cn', ocn' = some cn' → ∀ x, cn'.hj = some x →
+      (cn'.phase = .hijacking ∨ cn'.phase = .ret .hijacked) ∧ (cn'.hjLive = false → s.keepHj = true)) : Inv s' := by
   have cases : ∀ {d dn}, s'.conns d = some dn → (d = c ∧ ocn' = some dn) ∨ (d ≠ c ∧ s.conns d = some dn) := by
     intro d dn hd
     rw [hcs] at hd
@@ -76,7 +78,7 @@ theorem inv_trans {s s' : State} {c : Nat} {ocn' : Option Conn} (h : Inv s)
   have other : ∀ {d dn k x}, d ≠ c → s.conns d = some dn → dn.holds k x → ¬ oldH s c k x := by
     intro d dn k x hne hd hx ⟨cn, hc, hcx⟩
     exact hne (h.distinct d c dn cn k x hd hc hx hcx)
-  refine ⟨hnd, ?_, ?_, ?_, ?_, ?_, ?_⟩
+  refine ⟨hnd, ?_, ?_, ?_, ?_, ?_, ?_, ?_⟩
   · intro k x hx
     rcases hsrc k x hx with h1 | ⟨cn, hc, hcx⟩
     · exact Nat.lt_of_lt_of_le (h.poolLt k x h1) hnext
@@ -112,8 +114,13 @@ theorem inv_trans {s s' : State} {c : Nat} {ocn' : Option Conn} (h : Inv s)
     · exact h.idleClean d dn hd' hp
   · intro d dn x hd hx
     rcases cases hd with ⟨_, e⟩ | ⟨_, hd'⟩
-    · exact hhj dn e x hx
+    · exact (hhj dn e x hx).1
     · exact h.hjOnly d dn x hd' hx
+  · intro d dn x hd hx hl
+    rw [hkeep]
+    rcases cases hd with ⟨_, e⟩ | ⟨_, hd'⟩
+    · exact (hhj dn e x hx).2 hl
+    · exact h.liveUnlessKeep d dn x hd' hx hl
 
 def oldR (s : State) (c : Nat) (k : Kind) (x : Nat) : Prop := ∃ cn, s.conns c = some cn ∧ cn.ref k = some x
 
@@ -122,9 +129,10 @@ theorem inv_upd {s : State} {c : Nat} {ocn' : Option Conn} (h : Inv s)
     (hrefs : ∀ cn', ocn' = some cn' → ∀ k y, cn'.ref k = some y → oldR s c k y)
     (hholds : ∀ cn', ocn' = some cn' → ∀ k y, cn'.holds k y → oldH s c k y)
     (hidle : ∀ cn', ocn' = some cn' → cn'.phase = .idle → cn'.stream = none)
-    (hhj : ∀ cn', ocn' = some cn' → ∀ x, cn'.hj = some x → cn'.phase = .hijacking) :
+    (hhj : ∀ cn', ocn' = some cn' → ∀ x, cn'.hj = some x →
+      (cn'.phase = .hijacking ∨ cn'.phase = .ret .hijacked) ∧ (cn'.hjLive = false → s.keepHj = true)) :
     Inv (s.setConn c ocn') := by
-  refine inv_trans (c := c) (ocn' := ocn') h (fun d => rfl) (Nat.le_refl _) h.nodup (fun k y hy => Or.inl hy) ?_ ?_ hidle hhj
+  refine inv_trans (c := c) (ocn' := ocn') h (fun d => rfl) (Nat.le_refl _) h.nodup (fun k y hy => Or.inl hy) ?_ ?_ hidle rfl hhj
   · intro cn' e k y hr
     obtain ⟨cn, hc, hcr⟩ := hrefs cn' e k y hr
     exact h.refLt c cn k y hc hcr
@@ -138,12 +146,13 @@ theorem inv_put {s : State} {c : Nat} {k : Kind} {x : Nat} {ocn' : Option Conn} 
     (hrefs : ∀ cn', ocn' = some cn' → ∀ k' y, cn'.ref k' = some y → oldR s c k' y)
     (hholds : ∀ cn', ocn' = some cn' → ∀ k' y, cn'.holds k' y → oldH s c k' y ∧ ¬ (k' = k ∧ y = x))
     (hidle : ∀ cn', ocn' = some cn' → cn'.phase = .idle → cn'.stream = none)
-    (hhj : ∀ cn', ocn' = some cn' → ∀ x, cn'.hj = some x → cn'.phase = .hijacking) :
+    (hhj : ∀ cn', ocn' = some cn' → ∀ x, cn'.hj = some x →
+      (cn'.phase = .hijacking ∨ cn'.phase = .ret .hijacked) ∧ (cn'.hjLive = false → s.keepHj = true)) :
     Inv ((s.put k x).setConn c ocn') := by
   obtain ⟨cn, hc, hcx⟩ := hold
   have hx : x ∉ s.pool k := h.notPooled c cn k x hc hcx
   have hpool : ∀ k', ((s.put k x).setConn c ocn').pool k' = if k' = k then x :: s.pool k else s.pool k' := fun _ => rfl
-  refine inv_trans (c := c) (ocn' := ocn') h (fun d => rfl) (Nat.le_refl _) ?_ ?_ ?_ ?_ hidle hhj
+  refine inv_trans (c := c) (ocn' := ocn') h (fun d => rfl) (Nat.le_refl _) ?_ ?_ ?_ ?_ hidle rfl hhj
   · intro k'
     rw [hpool]
     by_cases e : k' = k
@@ -176,7 +185,8 @@ theorem inv_take {s : State} {c : Nat} {k : Kind} {i : Nat} {cn' : Conn} (h : In
     (hrefs : ∀ k' y, cn'.ref k' = some y → (k' = k ∧ y = (take (s.pool k) i s.next).1) ∨ oldR s c k' y)
     (hholds : ∀ k' y, cn'.holds k' y → (k' = k ∧ y = (take (s.pool k) i s.next).1) ∨ (oldH s c k' y ∧ k' ≠ k))
     (hidle : cn'.phase = .idle → cn'.stream = none)
-    (hhj : ∀ x, cn'.hj = some x → cn'.phase = .hijacking) :
+    (hhj : ∀ x, cn'.hj = some x →
+      (cn'.phase = .hijacking ∨ cn'.phase = .ret .hijacked) ∧ (cn'.hjLive = false → s.keepHj = true)) :
     Inv { (s.setPool k (take (s.pool k) i s.next).2.1).setConn c (some cn') with
           next := (take (s.pool k) i s.next).2.2 } := by
   have hpool : ∀ k', ({ (s.setPool k (take (s.pool k) i s.next).2.1).setConn c (some cn') with
@@ -185,7 +195,7 @@ theorem inv_take {s : State} {c : Nat} {k : Kind} {i : Nat} {cn' : Conn} (h : In
   have hlt := take_lt (s.pool k) i s.next (h.poolLt k)
   have hle := take_le (s.pool k) i s.next
   refine inv_trans (c := c) (ocn' := some cn') h (fun d => rfl) hle ?_ ?_ ?_ ?_
-    (fun cn2 e => by cases e; exact hidle) (fun cn2 e => by cases e; exact hhj)
+    (fun cn2 e => by cases e; exact hidle) rfl (fun cn2 e => by cases e; exact hhj)
   · intro k'
     rw [hpool]
     by_cases e : k' = k
@@ -214,14 +224,31 @@ theorem inv_take {s : State} {c : Nat} {k : Kind} {i : Nat} {cn' : Conn} (h : In
       exact ⟨h.notPooled c cn k' y hc hcx, Or.inl ⟨cn, hc, hcx⟩⟩
 
 theorem inv_init : Inv init := by
-  refine ⟨?_, ?_, ?_, ?_, ?_, ?_, ?_⟩ <;> intros <;> simp_all [init]
+  refine ⟨?_, ?_, ?_, ?_, ?_, ?_, ?_, ?_⟩ <;> intros <;> simp_all [init]
+
+theorem inv_initK (keep : Bool) : Inv (initK keep) := by
+  refine ⟨?_, ?_, ?_, ?_, ?_, ?_, ?_, ?_⟩ <;> intros <;> simp_all [initK]
+
+/-- `Inv` does not look at the `Conn` fields of the hijack conn objects -/
+theorem inv_congr {s s' : State} (hp : s'.pool = s.pool) (hc : s'.conns = s.conns) (hn : s'.next = s.next)
+    (hk : s'.keepHj = s.keepHj) (h : Inv s) : Inv s' := by
+  obtain ⟨a1, a2, a3, a4, a5, a6, a7, a8⟩ := h
+  refine ⟨?_, ?_, ?_, ?_, ?_, ?_, ?_, ?_⟩
+  · rw [hp]; exact a1
+  · rw [hp, hn]; exact a2
+  · rw [hc, hn]; exact a3
+  · rw [hc, hp]; exact a4
+  · rw [hc]; exact a5
+  · rw [hc]; exact a6
+  · rw [hc]; exact a7
+  · rw [hc, hk]; exact a8
 
 
 set_option linter.unusedSimpArgs false
 
 /-! ## every step keeps the discipline -/
 
-theorem inv_step (s : State) (e : Ev) (h : Inv s) : Inv (step s e) := by
+theorem inv_step (s : State) (e : Ev) (h : Inv s) (hns : ¬ staleClose s e) : Inv (step s e) := by
   cases e with
   | accept c i =>
     simp only [step]
@@ -260,7 +287,7 @@ theorem inv_step (s : State) (e : Ev) (h : Inv s) : Inv (step s e) := by
             · exact Or.inr ⟨⟨cn, hc, by simp [Conn.holds, Conn.ref, Conn.owns, hr]⟩, by decide⟩
           · intro x hx
             have := h.hjOnly c cn x hc hx
-            rw [hp] at this; cases this
+            rw [hp] at this; rcases this with hq1 | hq1 <;> cases hq1
         | false =>
           simp only [Bool.false_eq_true, if_false]
           refine inv_upd (c := c) (ocn' := some { cn with phase := .handling }) h ?_ ?_ ?_ ?_
@@ -272,7 +299,7 @@ theorem inv_step (s : State) (e : Ev) (h : Inv s) : Inv (step s e) := by
           · intro cn' e hq; cases e; simp at hq
           · intro cn' e x hx; cases e
             have := h.hjOnly c cn x hc hx
-            rw [hp] at this; cases this
+            rw [hp] at this; rcases this with hq1 | hq1 <;> cases hq1
       · rw [if_neg hp]; exact h
   | readFail c =>
     simp only [step]
@@ -292,7 +319,7 @@ theorem inv_step (s : State) (e : Ev) (h : Inv s) : Inv (step s e) := by
         · intro cn' e hq; cases e; simp at hq
         · intro cn' e x hx; cases e
           have := h.hjOnly c cn x hc hx
-          rw [hp] at this; cases this
+          rw [hp] at this; rcases this with hq1 | hq1 <;> cases hq1
       · rw [if_neg hp]; exact h
   | handle c exile e =>
     simp only [step]
@@ -304,7 +331,7 @@ theorem inv_step (s : State) (e : Ev) (h : Inv s) : Inv (step s e) := by
       · rw [if_pos hp]
         have hjn : ∀ x, cn.hj = some x → False := fun x hx => by
           have := h.hjOnly c cn x hc hx
-          rw [hp] at this; cases this
+          rw [hp] at this; rcases this with hq1 | hq1 <;> cases hq1
         cases e <;> simp only [] <;> refine inv_upd (c := c) h
           (fun cn' e k y hr => by cases e; exact ⟨cn, hc, by cases k <;> simp_all [Conn.ref]⟩)
           (fun cn' e k y hr => by
@@ -323,7 +350,7 @@ theorem inv_step (s : State) (e : Ev) (h : Inv s) : Inv (step s e) := by
       · rw [if_pos hp]
         have hjn : ∀ x, cn.hj = some x → False := fun x hx => by
           have := h.hjOnly c cn x hc hx
-          rw [hp] at this; cases this
+          rw [hp] at this; rcases this with hq1 | hq1 <;> cases hq1
         cases ok with
         | false =>
           simp only [Bool.false_eq_true, if_false]
@@ -367,13 +394,16 @@ theorem inv_step (s : State) (e : Ev) (h : Inv s) : Inv (step s e) := by
       · rw [if_pos hp]
         have hjn : ∀ x, cn.hj = some x → False := fun x hx => by
           have := h.hjOnly c cn x hc hx
-          rw [hp] at this; cases this
+          rw [hp] at this; rcases this with hq1 | hq1 <;> cases hq1
         cases e with
         | hijack =>
           simp only []
+          refine inv_congr (s := { (s.setPool .hjconn (take (s.pool .hjconn) i s.next).2.1).setConn c
+              (some { cn with phase := .hijacking, hj := some (take (s.pool .hjconn) i s.next).1, hjLive := true }) with
+              next := (take (s.pool .hjconn) i s.next).2.2 }) rfl rfl rfl rfl ?_
           refine inv_take (c := c) (k := .hjconn) (i := i)
-            (cn' := { cn with phase := .hijacking, hj := some (take (s.pool .hjconn) i s.next).1 }) h
-            ?_ ?_ (fun hq => by simp at hq) (fun _ _ => rfl)
+            (cn' := { cn with phase := .hijacking, hj := some (take (s.pool .hjconn) i s.next).1, hjLive := true }) h
+            ?_ ?_ (fun hq => by simp at hq) (fun _ _ => ⟨Or.inl rfl, fun hl => by simp at hl⟩)
           · intro k' y hr
             cases k' <;> simp [Conn.ref] at hr
             · exact Or.inr ⟨cn, hc, by simp [Conn.ref, hr]⟩
@@ -411,7 +441,38 @@ theorem inv_step (s : State) (e : Ev) (h : Inv s) : Inv (step s e) := by
             (fun cn' e hq => by cases e; rfl)
             (fun cn' e x hx => by cases e; exact (hjn x hx).elim)
       · rw [if_neg hp]; exact h
-  | hijackEnd c keep =>
+  | userClose c =>
+    simp only [step]
+    cases hc : s.conns c with
+    | none => exact h
+    | some cn =>
+      simp only []
+      by_cases hp : cn.phase = .hijacking ∨ cn.phase = .ret .hijacked
+      · rw [if_pos hp]
+        cases hh : cn.hj with
+        | none => exact h
+        | some x =>
+          simp only []
+          by_cases hk : (s.keepHj && s.hjSet x) = true
+          · rw [if_pos hk]
+            have hk' : s.keepHj = true ∧ s.hjSet x = true := by simpa using hk
+            have hl : cn.hjLive = true := by
+              cases hl : cn.hjLive with
+              | true => rfl
+              | false => exact (hns ⟨cn, x, hc, hh, hl, hk'.2, hk'.1, hp⟩).elim
+            refine inv_congr (s := (s.put .hjconn x).setConn c (some { cn with hj := some x, hjLive := false })) rfl rfl rfl rfl ?_
+            refine inv_put (c := c) (k := .hjconn) (x := x) h ⟨cn, hc, by simp [Conn.holds, Conn.ref, Conn.owns, hh, hl]⟩ ?_ ?_ ?_ ?_
+            · intro cn' e k y hr; cases e
+              exact ⟨cn, hc, by cases k <;> simp_all [Conn.ref]⟩
+            · intro cn' e k y hr; cases e
+              cases k <;> simp_all [Conn.holds, Conn.ref, Conn.owns, oldH]
+            · intro cn' e hq; cases e
+              rcases hp with hp | hp <;> simp_all
+            · intro cn' e y hy; cases e
+              exact ⟨hp, fun _ => hk'.1⟩
+          · rw [if_neg hk]; exact h
+      · rw [if_neg hp]; exact h
+  | hijackEnd c =>
     simp only [step]
     cases hc : s.conns c with
     | none => exact h
@@ -419,28 +480,41 @@ theorem inv_step (s : State) (e : Ev) (h : Inv s) : Inv (step s e) := by
       simp only []
       by_cases hp : cn.phase = .hijacking
       · rw [if_pos hp]
-        have hupd : Inv (s.setConn c (some { cn with phase := .ret .hijacked, hj := none })) :=
-          inv_upd (c := c) h
+        cases hh : cn.hj with
+        | none =>
+          simp only []
+          exact inv_upd (c := c) h
             (fun cn' e k y hr => by cases e; exact ⟨cn, hc, by cases k <;> simp_all [Conn.ref]⟩)
             (fun cn' e k y hr => by
               cases e; refine ⟨cn, hc, ?_⟩
               cases k <;> simp_all [Conn.holds, Conn.ref, Conn.owns, RetSite.streamLive])
             (fun cn' e hq => by cases e; simp at hq)
-            (fun cn' e x hx => by cases e; simp at hx)
-        cases hh : cn.hj with
-        | none => simp only []; exact hupd
+            (fun cn' e y hy => by cases e; simp [hh] at hy)
         | some x =>
-          cases keep with
-          | true => simp only []; exact hupd
-          | false =>
-            simp only []
-            refine inv_put (c := c) (k := .hjconn) (x := x) h ⟨cn, hc, by simp [Conn.holds, Conn.ref, Conn.owns, hh]⟩ ?_ ?_ ?_ ?_
+          simp only []
+          by_cases hk : s.keepHj = true
+          · rw [if_pos hk]
+            exact inv_upd (c := c) h
+              (fun cn' e k y hr => by cases e; exact ⟨cn, hc, by cases k <;> simp_all [Conn.ref]⟩)
+              (fun cn' e k y hr => by
+                cases e; refine ⟨cn, hc, ?_⟩
+                cases k <;> simp_all [Conn.holds, Conn.ref, Conn.owns, RetSite.streamLive])
+              (fun cn' e hq => by cases e; simp at hq)
+              (fun cn' e y hy => by cases e; exact ⟨Or.inr rfl, fun _ => hk⟩)
+          · rw [if_neg hk]
+            have hl : cn.hjLive = true := by
+              cases hl : cn.hjLive with
+              | true => rfl
+              | false => exact (hk (h.liveUnlessKeep c cn x hc hh hl)).elim
+            refine inv_congr (s := (s.put .hjconn x).setConn c
+              (some { cn with phase := .ret .hijacked, hj := none, hjLive := false })) rfl rfl rfl rfl ?_
+            refine inv_put (c := c) (k := .hjconn) (x := x) h ⟨cn, hc, by simp [Conn.holds, Conn.ref, Conn.owns, hh, hl]⟩ ?_ ?_ ?_ ?_
             · intro cn' e k y hr; cases e
               exact ⟨cn, hc, by cases k <;> simp_all [Conn.ref]⟩
             · intro cn' e k y hr; cases e
               cases k <;> simp_all [Conn.holds, Conn.ref, Conn.owns, RetSite.streamLive, oldH]
             · intro cn' e hq; cases e; simp at hq
-            · intro cn' e x hx; cases e; simp at hx
+            · intro cn' e y hy; cases e; simp at hy
       · rw [if_neg hp]; exact h
   | finish c =>
     simp only [step]
@@ -464,10 +538,10 @@ theorem inv_step (s : State) (e : Ev) (h : Inv s) : Inv (step s e) := by
       | released => exact h
       | hijacking => exact h
 
-theorem inv_run (s : State) (es : List Ev) (h : Inv s) : Inv (run s es) := by
+theorem inv_run (s : State) (es : List Ev) (h : Inv s) (hs : NoStale s es) : Inv (run s es) := by
   induction es generalizing s with
   | nil => exact h
-  | cons e es ih => exact ih _ (inv_step s e h)
+  | cons e es ih => exact ih _ (inv_step s e h hs.1) hs.2
 
 /-! ## no silent loss -/
 
@@ -654,7 +728,7 @@ theorem tracked_step (s : State) (e : Ev) (k : Kind) (x : Nat) (h : Inv s) (ht :
         | hijack =>
           simp only []
           refine tracked_trans (s := s) (c := c)
-            (ocn' := some { cn with phase := .hijacking, hj := some (take (s.pool .hjconn) i s.next).1 })
+            (ocn' := some { cn with phase := .hijacking, hj := some (take (s.pool .hjconn) i s.next).1, hjLive := true })
             (D := fun k y => deliberate s (.after c .hijack i) k y) ?_ ?_ ?_ k x ht
           · intro d; rfl
           · intro k' y hy
@@ -668,7 +742,7 @@ theorem tracked_step (s : State) (e : Ev) (k : Kind) (x : Nat) (h : Inv s) (ht :
             have hjn : cn.hj = none := by
               cases hh : cn.hj with
               | none => rfl
-              | some z => have := h.hjOnly c cn z hc hh; rw [hp] at this; cases this
+              | some z => have := h.hjOnly c cn z hc hh; rw [hp] at this; rcases this with hq1 | hq1 <;> cases hq1
             refine Or.inr (Or.inl ⟨_, rfl, ?_⟩)
             cases k' <;> simp_all [Conn.holds, Conn.ref, Conn.owns]
         | close =>
@@ -699,7 +773,35 @@ theorem tracked_step (s : State) (e : Ev) (k : Kind) (x : Nat) (h : Inv s) (ht :
             refine Or.inr (Or.inl ⟨_, rfl, ?_⟩)
             cases k' <;> simp_all [Conn.holds, Conn.ref, Conn.owns]
       · rw [if_neg hp]; exact Or.inl ht
-  | hijackEnd c keep =>
+  | userClose c =>
+    simp only [step]
+    cases hc : s.conns c with
+    | none => exact Or.inl ht
+    | some cn =>
+      simp only []
+      by_cases hp : cn.phase = .hijacking ∨ cn.phase = .ret .hijacked
+      · rw [if_pos hp]
+        cases hh : cn.hj with
+        | none => exact Or.inl ht
+        | some z =>
+          simp only []
+          by_cases hk : (s.keepHj && s.hjSet z) = true
+          · rw [if_pos hk]
+            refine tracked_trans (s := s) (c := c) (ocn' := some { cn with hj := some z, hjLive := false })
+              (D := fun k y => deliberate s (.userClose c) k y) ?_ ?_ ?_ k x ht
+            · intro d; rfl
+            · intro k' y hy
+              refine Or.inl ?_
+              cases k' <;> simp [State.put, State.setPool, State.setConn, State.setHj, hy]
+            · intro cn0 e k' y hy; rw [hc] at e; cases e
+              cases k'
+              · refine Or.inr (Or.inl ⟨_, rfl, ?_⟩); simp_all [Conn.holds, Conn.ref, Conn.owns]
+              · refine Or.inr (Or.inl ⟨_, rfl, ?_⟩); simp_all [Conn.holds, Conn.ref, Conn.owns]
+              · refine Or.inl ?_
+                simp_all [Conn.holds, Conn.ref, Conn.owns, State.put, State.setPool, State.setConn, State.setHj]
+          · rw [if_neg hk]; exact Or.inl ht
+      · rw [if_neg hp]; exact Or.inl ht
+  | hijackEnd c =>
     simp only [step]
     cases hc : s.conns c with
     | none => exact Or.inl ht
@@ -711,41 +813,37 @@ theorem tracked_step (s : State) (e : Ev) (k : Kind) (x : Nat) (h : Inv s) (ht :
         | none =>
           simp only []
           refine tracked_trans (s := s) (c := c) (ocn' := some { cn with phase := .ret .hijacked, hj := none })
-            (D := fun k y => deliberate s (.hijackEnd c keep) k y) ?_ ?_ ?_ k x ht
+            (D := fun k y => deliberate s (.hijackEnd c) k y) ?_ ?_ ?_ k x ht
           · intro d; rfl
           · exact fun k y hy => Or.inl hy
           · intro cn0 e k' y hy; rw [hc] at e; cases e
             refine Or.inr (Or.inl ⟨_, rfl, ?_⟩)
             cases k' <;> simp_all [Conn.holds, Conn.ref, Conn.owns]
         | some z =>
-          cases keep with
-          | true =>
-            simp only []
-            refine tracked_trans (s := s) (c := c) (ocn' := some { cn with phase := .ret .hijacked, hj := none })
-              (D := fun k y => deliberate s (.hijackEnd c true) k y) ?_ ?_ ?_ k x ht
+          simp only []
+          by_cases hk : s.keepHj = true
+          · rw [if_pos hk]
+            refine tracked_trans (s := s) (c := c) (ocn' := some { cn with phase := .ret .hijacked, hj := some z })
+              (D := fun k y => deliberate s (.hijackEnd c) k y) ?_ ?_ ?_ k x ht
             · intro d; rfl
             · exact fun k y hy => Or.inl hy
             · intro cn0 e k' y hy; rw [hc] at e; cases e
-              cases k'
-              · refine Or.inr (Or.inl ⟨_, rfl, ?_⟩); simp_all [Conn.holds, Conn.ref, Conn.owns]
-              · refine Or.inr (Or.inl ⟨_, rfl, ?_⟩); simp_all [Conn.holds, Conn.ref, Conn.owns]
-              · refine Or.inr (Or.inr ?_)
-                show ∃ cn1, s.conns c = some cn1 ∧ Kind.hjconn = Kind.hjconn ∧ cn1.hj = some y
-                exact ⟨cn, hc, rfl, by simp_all [Conn.holds, Conn.ref]⟩
-          | false =>
-            simp only []
-            refine tracked_trans (s := s) (c := c) (ocn' := some { cn with phase := .ret .hijacked, hj := none })
-              (D := fun k y => deliberate s (.hijackEnd c false) k y) ?_ ?_ ?_ k x ht
+              refine Or.inr (Or.inl ⟨_, rfl, ?_⟩)
+              cases k' <;> simp_all [Conn.holds, Conn.ref, Conn.owns]
+          · rw [if_neg hk]
+            refine tracked_trans (s := s) (c := c)
+              (ocn' := some { cn with phase := .ret .hijacked, hj := none, hjLive := false })
+              (D := fun k y => deliberate s (.hijackEnd c) k y) ?_ ?_ ?_ k x ht
             · intro d; rfl
             · intro k' y hy
               refine Or.inl ?_
-              cases k' <;> simp [State.put, State.setPool, State.setConn, hy]
+              cases k' <;> simp [State.put, State.setPool, State.setConn, State.setHj, hy]
             · intro cn0 e k' y hy; rw [hc] at e; cases e
               cases k'
               · refine Or.inr (Or.inl ⟨_, rfl, ?_⟩); simp_all [Conn.holds, Conn.ref, Conn.owns]
               · refine Or.inr (Or.inl ⟨_, rfl, ?_⟩); simp_all [Conn.holds, Conn.ref, Conn.owns]
               · refine Or.inl ?_
-                simp_all [Conn.holds, Conn.ref, Conn.owns, State.put, State.setPool, State.setConn]
+                simp_all [Conn.holds, Conn.ref, Conn.owns, State.put, State.setPool, State.setConn, State.setHj]
       · rw [if_neg hp]; exact Or.inl ht
   | finish c =>
     simp only [step]
@@ -763,10 +861,6 @@ theorem tracked_step (s : State) (e : Ev) (k : Kind) (x : Nat) (h : Inv s) (ht :
           · intro d; rfl
           · exact fun k y hy => Or.inl hy
           · intro cn0 e k' y hy; rw [hc] at e; cases e
-            have hjn : cn.hj = none := by
-              cases hh : cn.hj with
-              | none => rfl
-              | some z => have := h.hjOnly c cn z hc hh; rw [hph] at this; cases this
             have hst : k' = .stream → cn.phase = .ret .writeFail ∨ cn.phase = .ret .panicked := by
               intro ek; subst ek
               have ho := hy.2
@@ -774,8 +868,8 @@ theorem tracked_step (s : State) (e : Ev) (k : Kind) (x : Nat) (h : Inv s) (ht :
               cases r <;> simp_all [RetSite.streamLive]
             cases k'
             · exact Or.inr (Or.inr ⟨cn, hc, hy, Or.inl ⟨rfl, hx⟩⟩)
-            · exact Or.inr (Or.inr ⟨cn, hc, hy, Or.inr ⟨rfl, hst rfl⟩⟩)
-            · exfalso; simp_all [Conn.holds, Conn.ref]
+            · exact Or.inr (Or.inr ⟨cn, hc, hy, Or.inr (Or.inl ⟨rfl, hst rfl⟩)⟩)
+            · exact Or.inr (Or.inr ⟨cn, hc, hy, Or.inr (Or.inr rfl)⟩)
         · rw [if_neg hx]
           refine tracked_trans (s := s) (c := c) (ocn' := none)
             (D := fun k y => deliberate s (.finish c) k y) ?_ ?_ ?_ k x ht
@@ -784,10 +878,6 @@ theorem tracked_step (s : State) (e : Ev) (k : Kind) (x : Nat) (h : Inv s) (ht :
             refine Or.inl ?_
             cases k' <;> simp [State.put, State.setPool, State.setConn, hy]
           · intro cn0 e k' y hy; rw [hc] at e; cases e
-            have hjn : cn.hj = none := by
-              cases hh : cn.hj with
-              | none => rfl
-              | some z => have := h.hjOnly c cn z hc hh; rw [hph] at this; cases this
             have hst : k' = .stream → cn.phase = .ret .writeFail ∨ cn.phase = .ret .panicked := by
               intro ek; subst ek
               have ho := hy.2
@@ -796,10 +886,50 @@ theorem tracked_step (s : State) (e : Ev) (k : Kind) (x : Nat) (h : Inv s) (ht :
             cases k'
             · refine Or.inl ?_
               simp_all [Conn.holds, Conn.ref, State.put, State.setPool, State.setConn]
-            · exact Or.inr (Or.inr ⟨cn, hc, hy, Or.inr ⟨rfl, hst rfl⟩⟩)
-            · exfalso; simp_all [Conn.holds, Conn.ref]
+            · exact Or.inr (Or.inr ⟨cn, hc, hy, Or.inr (Or.inl ⟨rfl, hst rfl⟩)⟩)
+            · exact Or.inr (Or.inr ⟨cn, hc, hy, Or.inr (Or.inr rfl)⟩)
       | idle => exact Or.inl ht
       | handling => exact Or.inl ht
       | released => exact Or.inl ht
       | hijacking => exact Or.inl ht
+/-! ## the user's `Close` calls -/
+
+theorem step_keepHj (s : State) (e : Ev) : (step s e).keepHj = s.keepHj := by
+  cases e <;> simp only [step] <;> (repeat' split) <;> rfl
+
+theorem userClose_cases (s : State) (c : Nat) : step s (.userClose c) = s ∨
+    ∃ (cn : Conn) (x : Nat), (cn.phase = .hijacking ∨ cn.phase = .ret .hijacked) ∧ cn.hj = some x ∧
+      step s (.userClose c) = ((s.put .hjconn x).setHj x false).setConn c (some { cn with hjLive := false }) := by
+  simp only [step]
+  cases hc : s.conns c with
+  | none => exact Or.inl rfl
+  | some cn =>
+    simp only []
+    by_cases hp : cn.phase = .hijacking ∨ cn.phase = .ret .hijacked
+    · rw [if_pos hp]
+      cases hh : cn.hj with
+      | none => exact Or.inl rfl
+      | some x =>
+        simp only []
+        by_cases hk : (s.keepHj && s.hjSet x) = true
+        · rw [if_pos hk]; exact Or.inr ⟨cn, x, hp, hh, by rw [hh]⟩
+        · rw [if_neg hk]; exact Or.inl rfl
+    · rw [if_neg hp]; exact Or.inl rfl
+
+theorem close_idem (s : State) (c : Nat) : step (step s (.userClose c)) (.userClose c) = step s (.userClose c) := by
+  rcases userClose_cases s c with h | ⟨cn, x, hp, hh, h⟩
+  · rw [h, h]
+  · rw [h]
+    simp [step, State.setConn, State.setHj, State.put, State.setPool, hp, hh]
+
+theorem not_stale_of_not_keep (s : State) (e : Ev) (hk : s.keepHj = false) : ¬ staleClose s e := by
+  cases e <;> simp only [staleClose, not_false_eq_true]
+  rintro ⟨cn, x, _, _, _, _, h, _⟩
+  rw [hk] at h; cases h
+
+theorem noStale_of_not_keep (s : State) (es : List Ev) (hk : s.keepHj = false) : NoStale s es := by
+  induction es generalizing s with
+  | nil => trivial
+  | cons e es ih => exact ⟨not_stale_of_not_keep s e hk, ih _ (by rw [step_keepHj]; exact hk)⟩
+
 end Hertz.PoolOwn
